@@ -277,6 +277,138 @@ let do_maxhilb line n xs fv fg =
     end
   end
 
+(* ------------------------------------------------------------------------------------------------------------------ *)
+(* second extension stage `rest` (C06_Rest_Defs): FX SG SF GG MQ lines                                                   *)
+(* ------------------------------------------------------------------------------------------------------------------ *)
+let rest_total = ref 0
+let q_zero_fun (_ : q list) (_ : q list) : q = zero_q
+let q_is_zero (x : q) = (match (qred x).qnum with Z0 -> true | _ -> false)
+let q_sum l = List.fold_left qplus zero_q l
+let fx_model (name : string) =
+  match name with
+  | "schumer-steiglitz" -> Some (schumer_v qops, schumer_g qops, schumer_r2 qops, schumer_r3 qops, schumer_r4 qops)
+  | "styblinski-tang" -> Some (styblinski_v qops, styblinski_g qops, styblinski_r2 qops, schumer_r3 qops, schumer_r4 qops)
+  | "qing" -> Some (qing_v qops, qing_g qops, qing_r2 qops, schumer_r3 qops, schumer_r4 qops)
+  | "axis-ellipsoid" -> Some (axis_v qops, axis_g qops, axis_r2 qops, q_zero_fun, q_zero_fun)
+  | "chung-reynolds" -> Some (chung_v qops, chung_g qops, chung_r2 qops, chung_r3 qops, chung_r4 qops)
+  | "sargan" -> Some (sargan_v qops, sargan_g qops, sargan_r2 qops, sargan_r3 qops, sargan_r4 qops)
+  | "zakharov" -> Some (zakharov_v qops, zakharov_g qops, zakharov_r2 qops, zakharov_r3 qops, zakharov_r4 qops)
+  | "rosenbrock" -> Some (rosenbrock_v qops, rosenbrock_g qops, rosenbrock_r2 qops, rosenbrock_r3 qops, rosenbrock_r4 qops)
+  | "dixon-price" -> Some (dixon_v qops, dixon_g qops, dixon_r2 qops, dixon_r3 qops, dixon_r4 qops)
+  | "powell" -> Some (powell_v qops, powell_g qops, powell_r2 qops, powell_r3 qops, powell_r4 qops)
+  | _ -> None
+
+(* f(x), g(x) against the model; f(x + d) against the model; the remainder f(x+d) - f(x) - g.d of the IMPLEMENTATION (computed exactly from
+   its doubles) against the remainder polynomial of the theorem; and the theorem's identity inside the exact model (Qeq) *)
+let check_expansion line (fm : q list -> q) (gm : q list -> q list) (rem : q) xs ds fv fg fz =
+  incr rest_total;
+  let x = qlist xs and d = qlist ds in
+  let z = along qops x one_q d in
+  let fxs = flist xs and fds = flist ds in
+  check_vg line (fm x) (gm x) fv fg (fxs @ fds);
+  let gd = (try List.fold_left2 (fun a g e -> a +. Float.abs (g *. e)) 0.0 fg fds with _ -> 0.0) in
+  let scale = 1.0 +. Float.abs fz +. Float.abs fv +. gd in
+  if not (close (fm z) fz scale) then report line ("f(x+d) " ^ hx (float_of_q (fm z)))
+  else if List.length fg = List.length d then begin
+    let lhs = qminus (qminus (q_of_float fz) (q_of_float fv)) (q_sum (List.map2 (fun g e -> qmult (q_of_float g) e) fg d)) in
+    if Float.abs (float_of_q (qminus lhs rem)) > 1e-9 *. scale then
+      report line (Printf.sprintf "remainder f(x+d)-f(x)-g.d: implementation %s, polynomial of the theorem %s" (hx (float_of_q lhs)) (hx (float_of_q rem)));
+    (* the theorem inside the model: exact *)
+    let mlhs = qminus (qminus (fm z) (fm x)) (dot qops (gm x) d) in
+    if not (q_is_zero (qminus mlhs rem)) then report line "PROPFAIL: the exact model violates its own Taylor identity"
+  end
+
+let parts3 line rest k =
+  match split_str " = " rest with
+  | [lhs; rhs] -> (match split_str " | " lhs, split_str " | " rhs with
+                   | l, [vs; gs; fzs] -> k l (pf vs) (flist gs) (pf fzs)
+                   | _ -> report line "bad line")
+  | _ -> report line "bad line"
+
+let do_fx line rest =
+  parts3 line rest (fun l fv fg fz ->
+    match l with
+    | [head; xs; ds] ->
+      (match split_on ' ' (trim head) with
+       | [name; _n] ->
+         (match fx_model name with
+          | Some (fm, gm, r2, r3, r4) ->
+            let x = qlist xs and d = qlist ds in
+            check_expansion line fm gm (rem_poly qops one_q (r2 x d) (r3 x d) (r4 x d)) xs ds fv fg fz
+          | None -> incr skipped)
+       | _ -> report line "bad FX head")
+    | _ -> report line "bad FX line")
+
+let do_sg line rest =
+  parts3 line rest (fun l fv fg fz ->
+    match l with
+    | [_n; ms; xs; ds] ->
+      let m = qlist ms in
+      check_expansion line (sur_v qops m) (sur_g qops m) (sur_q qops m (qlist ds)) xs ds fv fg fz
+    | _ -> report line "bad SG line")
+
+let do_sf line rest =
+  parts line rest (fun l fv fg ->
+    match l with
+    | [head; ps; ys; xs] ->
+      (match split_on ' ' (trim head) with
+       | [id; _np] ->
+         (match ext_kernel id with
+          | None -> incr skipped
+          | Some (kv, kg) ->
+            incr rest_total;
+            let data = fit_data qops (rows_q ps) (qlist ys) and x = qlist xs in
+            check_vg line (fit_v qops (loss_v qops kv) data x) (fit_g qops (loss_g kg) data x) fv fg
+              (flist xs @ flist ys @ all_abs (rows_f ps) @ List.map (fun _ -> 4.0) (flist ys)))
+       | _ -> report line "bad SF head")
+    | _ -> report line "bad SF line")
+
+let do_gg line rest =
+  parts line rest (fun l fv fg ->
+    match l with
+    | [head; tgs; xs] ->
+      (match split_on ' ' (trim head) with
+       | [id; tsz] ->
+         (match ext_kernel id with
+          | None -> incr skipped
+          | Some (kv, kg) ->
+            incr rest_total;
+            let ts = rows_q tgs and x = qlist xs and k = nat_of_int (int_of_string tsz) in
+            check_vg line (grads_v qops (loss_v qops kv) ts k x) (grads_g qops (loss_g kg) ts k x) fv fg (flist xs @ all_abs (rows_f tgs)))
+       | _ -> report line "bad GG head")
+    | _ -> report line "bad GG line")
+
+(* maxquad: the model PLACES the entries (mirrored off-diagonal, diagonal = own term + sum of |off-diagonal| of the row); on a near tie of two
+   pieces the library may legitimately select another piece: accept the gradient of any piece whose value is within 1e-9 of the maximum *)
+let do_mq line rest =
+  parts line rest (fun l fv fg ->
+    match l with
+    | [head; es; dgs; bs; xs] ->
+      (match split_on ' ' (trim head) with
+       | [ns; _kd] ->
+         incr rest_total;
+         let n = int_of_string ns in
+         let x = qlist xs in
+         let el = List.map rows_q (split_on '/' es) and dl = List.map qlist (split_on '/' dgs) and bl = List.map qlist (split_on '/' bs) in
+         let rec zip3 a b c = match a, b, c with u :: a', v :: b', w :: c' -> (u, v, w) :: zip3 a' b' c' | _ -> [] in
+         let pieces = List.map (fun (e, dg, b) ->
+           (mqf_matrix qops (fun i j -> List.nth (List.nth e (int_of_nat i)) (int_of_nat j)) (fun i -> List.nth dg (int_of_nat i)) (nat_of_int n), b)) (zip3 el dl bl) in
+         let mv' = maxquad_v qops pieces x and mg = maxquad_g qops pieces x in
+         let fx = flist xs in
+         let mags = List.concat (List.map (fun (a, b) -> List.map float_of_q b @ List.concat (List.map (List.map float_of_q) a)) pieces) in
+         let scale = 1.0 +. Float.abs fv +. (sum_abs fx) *. (1.0 +. sum_abs fx) *. (1.0 +. max_abs mags) in
+         if not (close mv' fv scale) then report line ("value " ^ hx (float_of_q mv'))
+         else begin
+           let gscale = 1.0 +. sum_abs fg +. (1.0 +. sum_abs fx) *. (1.0 +. max_abs mags) in
+           let ok_vec (g : q list) = List.length g = List.length fg && List.for_all2 (fun m v -> close m v gscale) g fg in
+           if not (ok_vec mg) then begin
+             let alt = List.exists (fun p -> Float.abs (float_of_q (mq_piece qops p x) -. fv) <= 1e-9 *. scale && ok_vec (mq_grad qops p x)) pieces in
+             if not alt then report line "gradient is not 2 A_k x - b_k of a (nearly) maximal piece"
+           end
+         end
+       | _ -> report line "bad MQ head")
+    | _ -> report line "bad MQ line")
+
 let fn_ext (name : string) =
   match name with
   | "trid" -> Some (trid_v qops, trid_g qops)
@@ -300,6 +432,7 @@ let fn_model (name : string) =
   | "chained_lq" -> Some (chained_lq_v qops, chained_lq_g qops)
   | "rotated-ellipsoid" -> Some (rotated_v qops, rotated_g qops)
   | "maxq" -> Some (maxq_v qops, maxq_g qops)
+  | "powell" -> Some (powell_v qops, powell_g qops)
   | _ -> None
 
 let do_fn line rest =
@@ -388,8 +521,13 @@ let () =
            | "GB" -> do_gb line rest
            | "GS" -> do_gs line rest
            | "EN" -> do_en line rest
+           | "FX" -> do_fx line rest
+           | "SG" -> do_sg line rest
+           | "SF" -> do_sf line rest
+           | "GG" -> do_gg line rest
+           | "MQ" -> do_mq line rest
            | _ -> ())
         with e -> report line ("driver exception " ^ Printexc.to_string e))
     done
   with End_of_file -> ());
-  Printf.printf "MODEL-DONE checked=%d mismatches=%d skipped=%d ext=%d\n" !total !mism !skipped !ext_total
+  Printf.printf "MODEL-DONE checked=%d mismatches=%d skipped=%d ext=%d rest=%d\n" !total !mism !skipped !ext_total !rest_total
